@@ -111,9 +111,9 @@ CLAIMED = {
           "(max_analysis_round, or loop_total_rounds), every completed visit adds exactly one to that counter, counters never decrease, the tables stay in place; "
           "complete_in_states_and_check_continue_flag (prefix) answers False at the bound; GlobalStmtStates.compute_target_method_states (prefix: the callee loop) "
           "selects a callee only while its call-site counter <= MAX_ANALYSIS_ROUND_FOR_CALL_SITE, the path is not stored and closes at most one cycle, and selecting "
-          "adds exactly one to the shared table; SimpleWorkList.{add,_add_with_priority,pop,peek,__len__} never queue an item twice; CallPath.count_cycles bounds. "
+          "adds exactly one to the shared table; PathFinder._enqueue never queues a marked node twice and _propagate_from_symbol/_propagate_from_state/_propagate_from_stmt re-enqueue a node only on strict tag growth, for a statement re-read, or if it was never dequeued in this propagation (tags only grow; propagate_taint keeps a fresh per-propagation set that receives every dequeued node); SimpleWorkList.{add,_add_with_priority,pop,peek,__len__} never queue an item twice; CallPath.count_cycles bounds. "
           "Static obligations pin every writer of the counter tables in src/lian and that all frames of an entry point share one call-site table. "
-          "That these bounds imply termination in polynomial time (liveness/complexity), the taint worklist and the unused size caps are outside."),
+          "That these bounds imply termination in polynomial time (liveness/complexity), the drain bound of the taint worklist as a lemma and the unused size caps are outside."),
     note=("Trusted: lianvc + encoding, z3; heapq.heappush as a permutation; the four analysis steps / prepare_parameters / map_arguments opaque with an assumed frame "
           "(do not write the counter tables; backed only by the syntactic writer inventory)."),
     design='§4 C13'),
